@@ -15,7 +15,9 @@ from boltons import fileutils
 LEVEL = 'fault_enumeration'
 RULE = ('configurations: overwrite x overwrite_part x rm_part_on_exc x text_mode x file_perms {None, 600, 640, 444, 000, 755} x umask '
         '{000, 002, 022, 027, 077} x destination absent/present (with a mode from the same list) x part file absent/present (foreign content) '
-        'x body {writes and returns, raises after k writes, creates the destination mid-way (race for overwrite=False), writes nothing}. For '
+        'x body {writes and returns, raises after k writes (an Exception, a falsy exception instance, KeyboardInterrupt, GeneratorExit, SystemExit), '
+        'creates the destination mid-way (race for overwrite=False), writes nothing} x API {with atomic_save, explicit setup/__exit__, the same '
+        'AtomicSaver object re-used after an earlier completed save made against a different destination state}. For '
         'each configuration the save runs once in a forked child under the interposition layer to record its events; then EVERY single fault '
         '(an OSError injected instead of performing the call) at every faultable event - creating the part file, chmod, write, flush, fsync, '
         'close, link/rename - is enumerated, and for half of the configurations every PAIR of faults (the second may also hit the cleanup '
@@ -47,7 +49,9 @@ def strat(tier):
         'body': st.sampled_from(['normal', 'normal', 'normal', 'raise0', 'raise1', 'raise2', 'race', 'nothing']),
         'errno': st.integers(0, len(ERRNOS) - 1),
         'pairs': st.booleans(),
-        'api': st.sampled_from(['with', 'with', 'explicit']),
+        'api': st.sampled_from(['with', 'with', 'explicit', 'reuse']),
+        # what a raising body raises: an ordinary exception, one whose instance is falsy, or BaseException kinds that pass through with-blocks
+        'exc': st.sampled_from(['plain', 'plain', 'falsy', 'keyboard', 'genexit', 'sysexit']),
     })
 
 
@@ -84,6 +88,18 @@ class BodyError(Exception):
     pass
 
 
+class FalsyBodyError(BodyError):
+    """an exception instance that is falsy (like an empty ExceptionGroup-style container or an error with __len__ 0)"""
+    def __bool__(self):
+        return False
+
+    def __len__(self):
+        return 0
+
+
+EXC = {'plain': BodyError, 'falsy': FalsyBodyError, 'keyboard': KeyboardInterrupt, 'genexit': GeneratorExit, 'sysexit': SystemExit}
+
+
 def _body(case, sandbox, body_kind, api):
     def body(ip):
         os.chdir(sandbox)
@@ -98,7 +114,7 @@ def _body(case, sandbox, body_kind, api):
                 return
             for i, c in enumerate(chunks):
                 if body_kind == 'raise%d' % i:
-                    raise BodyError('body failed after %d writes' % i)
+                    raise EXC[case.get('exc', 'plain')]('body failed after %d writes' % i)
                 f.write(c)
                 if body_kind == 'race' and i == 0:
                     ip.active = False
@@ -111,6 +127,28 @@ def _body(case, sandbox, body_kind, api):
             if api == 'with':
                 with fileutils.atomic_save(dest, **_kwargs(case)) as f:
                     work(f)
+            elif api == 'reuse':
+                # the same AtomicSaver object used for a second save: an earlier, completed save through it (made while the
+                # destination looked different) must not influence this one.  The first use is not under test: it runs
+                # outside the interposition layer and the initial state is restored afterwards.
+                s = fileutils.AtomicSaver(dest, **_kwargs(case))
+                ip.active = False
+                try:
+                    if os.path.lexists(dest):
+                        if case['overwrite']:
+                            os.chmod(dest, 0o604)
+                        else:
+                            os.unlink(dest)
+                    try:
+                        with s as f0:
+                            f0.write('first use' if case['text_mode'] else b'first use')
+                    except Exception:      # noqa
+                        pass
+                    _prepare(sandbox, case)
+                finally:
+                    ip.active = True
+                with s as f:
+                    work(f)
             else:
                 s = fileutils.AtomicSaver(dest, **_kwargs(case))
                 s.setup()
@@ -122,8 +160,8 @@ def _body(case, sandbox, body_kind, api):
                         raise
                 else:
                     s.__exit__(None, None, None)
-        except BodyError as e:
-            res = {'outcome': 'raised', 'exc': 'BodyError', 'msg': str(e)}
+        except (BodyError, KeyboardInterrupt, GeneratorExit, SystemExit) as e:
+            res = {'outcome': 'raised', 'exc': type(e).__name__, 'msg': str(e)}
         except OSError as e:
             res = {'outcome': 'raised', 'exc': 'OSError', 'errno': e.errno, 'msg': str(e)[:200]}
         except Exception as e:      # noqa
@@ -222,7 +260,7 @@ def evaluate(case, initial, res, events, fired, state, out, cfg, sandbox):
             return False
         # an immediate fault-free retry must succeed (unless it is refused for overwrite=False)
         retry_case = dict(case, body='normal')
-        code, r2 = fsio.run_in_child(sandbox, _body(retry_case, sandbox, 'normal', case['api']), umask=umask)
+        code, r2 = fsio.run_in_child(sandbox, _body(retry_case, sandbox, 'normal', 'with' if case['api'] == 'reuse' else case['api']), umask=umask)
         if r2 is None:
             raise HarnessError('retry child failed')
         refused = (not case['overwrite']) and dest1 is not None
@@ -245,7 +283,8 @@ def run(case):
         body = _body(case, sandbox, case['body'], case['api'])
         cfg = 'atomic_save(%s) [%s API], umask %s, destination %s, part file %s, body %s' % (
             ', '.join('%s=%s' % (k, oct(v) if k == 'file_perms' else v) for k, v in sorted(_kwargs(case).items())), case['api'], oct(umask),
-            'absent' if case['dest'] is None else 'present mode %s' % oct(PERMS[case['dest']]), 'present' if case['part'] else 'absent', case['body'])
+            'absent' if case['dest'] is None else 'present mode %s' % oct(PERMS[case['dest']]), 'present' if case['part'] else 'absent',
+            case['body'] + ('(%s)' % EXC[case.get('exc', 'plain')].__name__ if case['body'].startswith('raise') else ''))
         _prepare(sandbox, case)
         initial = _state(sandbox)
         code, res = fsio.run_in_child(sandbox, body, umask=umask)
@@ -297,6 +336,9 @@ def run(case):
             out.label('refusal')
         if case['body'].startswith('raise'):
             out.label('body_raises')
+            out.label('body_raises:' + case.get('exc', 'plain'))
+        if case['api'] == 'reuse':
+            out.label('saver_object_reused')
         return out
     finally:
         shutil.rmtree(sandbox, ignore_errors=True)
